@@ -161,10 +161,14 @@ Val(ct, c, mode, D) ==
     ELSE IF ct = "uchar" THEN c * UScale(D)
     ELSE c * D
 
-\* lattice/mode restrictions under which Val is meaningful
+\* lattice/mode restrictions under which Val is meaningful (incl. the int32 budget of c * D)
+MaxInt32 == 2147483647
 Representable(f, mode, D) ==
     /\ mode = "bits" => \A i \in DOMAIN f.vprops : IsFloatT(Canon(f.vprops[i].t))
     /\ (\E i \in DOMAIN f.vprops : Canon(f.vprops[i].t) = "uchar") => D % 255 = 0
+    /\ \A i \in DOMAIN f.vprops :
+          (~IsFloatT(Canon(f.vprops[i].t)) /\ Canon(f.vprops[i].t) # "uchar") =>
+              \A r \in DOMAIN f.vrecs : f.vrecs[r][i] <= MaxInt32 \div D /\ f.vrecs[r][i] >= 0 - (MaxInt32 \div D)
 
 \* raw = TRUE is the VARIANT in which single 8-bit scalars keep their raw value 0..255 (what the
 \* library's ASCII reader does, pinned by its tests; used only to classify that known deviation)
@@ -334,9 +338,9 @@ MustKeep(src, o) ==
 InBand(t, s, r, mode, D) ==
     IF mode = "lat"
     THEN CASE t = "uchar" -> IF s >= 0 /\ s <= D
-                             THEN r - s <= UScale(D) /\ s - r <= UScale(D)     \* 1/255
+                             THEN r <= s + UScale(D) /\ r >= s - UScale(D)     \* 1/255
                              ELSE r >= 0 /\ r <= D                             \* not storable: any 8-bit value
-           [] t = "int" -> IF s % D = 0 THEN r = s ELSE r - s < D /\ s - r < D
+           [] t = "int" -> IF s % D = 0 THEN r = s ELSE r < s + D /\ r > s - D
            [] OTHER -> r = s
     ELSE CASE t = "float" -> r = s \/ r \in Near32(s)      \* more precision than a float32 is no loss
            [] t = "double" -> r = s
